@@ -5,7 +5,7 @@
 // API and measures (winding numbers of sample points, exact integer predicates on output vertices, distances).
 //   kind "off"   {K, add:[[x0,y0,x1,y1]..], sub:[..], A:[pix..], vars:[{jt, ml10, seg, ds:[{d, in:[..], maybe:[..]}..]}..]}
 //   kind "sharp" {K, c:[[X,Y]..] (doubled coordinates), A, vars}
-//   kind "dec"   {K, add, sub, isl (added after the subtraction), A, comps:[[pix..]..], n}
+//   kind "dec"   {K, add, sub, isl (added after the subtraction), sub2 (subtracted last), A, comps:[[pix..]..], n}
 //   kind "hull"  {pts:[[x,y]..], hull:[[x,y]..] (counter-clockwise cycle or []), area2}
 //   kind "hullx" {rects:[[x0,y0,x1,y1]..], pts, hull, area2}
 //   kind "simp"  {ring:[[x,y]..], tn, td, ref:[[x,y]..], nrem}
@@ -119,6 +119,11 @@ CrossSection BuildRegion(const json& cs, long i) {
     Polygons isl;
     for (auto& r : cs["isl"]) isl.push_back(RectRing(r));
     a = a + CrossSection(isl);
+  }
+  if (cs.contains("sub2") && !cs["sub2"].empty()) {  // ... and holes cut into the islands
+    Polygons s2;
+    for (auto& r : cs["sub2"]) s2.push_back(RectRing(r));
+    a = a - CrossSection(s2);
   }
   return a;
 }
